@@ -126,6 +126,14 @@ def cases(tier, seed):
         for lt, edges in gen.flat_circuits(n, 0, ['L', 'XV', 'LS']):
             for vec in (False, True):
                 out.append({'net': True, 'spec': gen.make_spec(lt, edges), 'cfg': {'vectorize': vec}, 'seed': seed})
+    # an input with several sources is rewritten to a sum of aliases inside the equation: identifiers next to `^`
+    s1 = gen.make_spec([('a', 'PPT2P')], [])
+    s2 = gen.make_spec([('a', 'L'), ('b', 'LO'), ('cc', 'T2P')],
+                       [['a/lin/x', 'cc/t2p/u', None, {'weight': 2.0}], ['b/lin/x', 'cc/t2p/u', None, {'weight': -0.5}],
+                        ['a/lin/x', 'cc/t2p/w', None, {'weight': 1.0}], ['b/lin/x', 'cc/t2p/w', None, {'weight': 3.0}]])
+    for sp_ in (s1, s2):
+        for vec in (False, True):
+            out.append({'net': True, 'spec': sp_, 'cfg': {'vectorize': vec}, 'seed': seed})
     return out
 
 
